@@ -92,7 +92,7 @@ def run(tier, seed):
         "bounds": "one unrolling per loop (exact for definite assignment); all CFG paths; specification families bounded as in DESIGN §5",
         "functions_exercised": "whole compiler per program; the emitted text is what is encoded",
         "vacuity": "per program: a twin with one binding statement deleted must be reported unbound",
-        "exhaustive": True,
+        "exhaustive": False,
     }
     return runner.finish(PROP, tier, seed, "translation_validation", res, t0, cov, ASSUME)
 
